@@ -994,4 +994,12 @@ def mtf_no_alias(ctx):
     return res
 
 
-RULES = [mtf_no_alias, vignetted_pupil, intensity_used, c03_trace_entry, c04_marginal, no_stale, psf_norm, dft_sampling, working_fno, def_assign, shapes, geometric]
+
+def c04_fno_epd(ctx):
+    """shared with C04: the F-number behind the cut-off 1 / (wavelength x
+    working F-number) is f2 / EPD in every aperture arm (a conjugate-corrected
+    value would be corrected twice by the MTF / PSF front ends)"""
+    from .C04 import fno_epd as _r
+    return _r(ctx)
+
+RULES = [c04_fno_epd, mtf_no_alias, vignetted_pupil, intensity_used, c03_trace_entry, c04_marginal, no_stale, psf_norm, dft_sampling, working_fno, def_assign, shapes, geometric]
